@@ -91,3 +91,39 @@ Proof. exact zshift_chain_continuous. Qed.
 Print Assumptions C06_trapezoid_increment.
 Print Assumptions C06_uniform_pitch_exact.
 Print Assumptions C06_continuous_at_joins.
+
+(* ---------------------------------------------------------------------------------------------------------------
+   ShiftTorsion = DDX(dphidy): the finite-difference stencils of MeshRegion.DDX / DDY as modelled in
+   theories/Model_Stencil.v (the PrimFloat instance is run bit for bit against the real methods on stub regions with
+   and without neighbours on each side, on every run). *)
+From HT Require Import Model_Stencil Proof_Stencil.
+
+(* the value at a cell (result.centre from the x-faces, result.ylow from the corners) is the centred difference over the
+   cell: exact on data affine in the coordinate whose differences are the spacings, any number of cells *)
+Theorem C06_ddx_cell_values_exact_on_affine : forall a b (X : list R), increasing X ->
+  d_centre Rops (map (fun x => a + b * x) X) (diffs Rops X) = map (fun _ => b) (diffs Rops X).
+Proof. exact d_centre_affine. Qed.
+
+(* the value at a face: interior faces from the two adjacent cells, a face on the boundary of the mesh from the one-sided
+   half cell, a face shared with another region from that region's adjacent cell -- all exact on affine data *)
+Theorem C06_ddx_face_values_exact_on_affine : forall a b (Xc X : list R) (x_in x_out : option R) df0 dfn, Xc <> [] -> X <> [] -> increasing Xc ->
+  df0 <> 0 -> dfn <> 0 ->
+  df0 = match x_in with Some xi => hd 0 Xc - xi | None => 2 * (hd 0 Xc - hd 0 X) end ->
+  dfn = match x_out with Some xo => xo - last Xc 0 | None => 2 * (last X 0 - last Xc 0) end ->
+  d_face Rops (map (fun x => a + b * x) Xc) (map (fun x => a + b * x) X) (df0 :: diffs Rops Xc ++ [dfn])
+         (option_map (fun x => a + b * x) x_in) (option_map (fun x => a + b * x) x_out)
+  = b :: map (fun _ => b) (diffs Rops Xc) ++ [b].
+Proof. exact d_face_affine. Qed.
+
+(* ShiftTorsion at a face shared by two regions is single valued *)
+Theorem C06_ddx_single_valued_at_shared_faces : forall (CA FA dfA CB FB dfB : list R) iA oB, CA <> [] -> CB <> [] ->
+  last dfA 0 = hd 0 dfB ->
+  last (d_face Rops CA FA dfA iA (Some (hd 0 CB))) 0 = hd 0 (d_face Rops CB FB dfB (Some (last CA 0)) oB).
+Proof. exact d_face_shared. Qed.
+
+Theorem C06_ddx_sizes : forall (C F dc df : list R) i o, length F = S (length C) -> length dc = length C -> length df = S (length C) -> C <> [] ->
+  length (d_centre Rops F dc) = length C /\ length (d_face Rops C F df i o) = S (length C).
+Proof. exact stencil_lengths. Qed.
+
+Print Assumptions C06_ddx_face_values_exact_on_affine.
+Print Assumptions C06_ddx_single_valued_at_shared_faces.
